@@ -64,6 +64,10 @@ pub struct Cfg {
     /// from a panic (a destructor that synchronises with another object)
     #[serde(default)]
     pub guard_syncs: bool,
+    /// input streams wake the last waker they were given when they are dropped (as a channel does whose other side
+    /// wants to know that the receiver has gone)
+    #[serde(default)]
+    pub stream_wakes_on_drop: bool,
 }
 
 #[derive(Clone, Copy, Debug, PartialEq, Eq, Serialize, Deserialize)]
